@@ -55,12 +55,18 @@ func validException(b []byte) bool {
 
 type prefixCase struct {
 	Req spec.Req `json:"req"`
+	// Proto: value left in the request's exported MBAPHeader.ProtocolID field before it is encoded; whatever a caller leaves there, the
+	// frame the library encodes is one its own classifier accepts
+	Proto uint16 `json:"proto,omitempty"`
 }
 
 func runPrefix(c prefixCase) harness.Result {
 	q, err := cat.NewRequest(spec.TCP, c.Req)
 	if err != nil {
 		return harness.Result{Labels: []string{"constructor-rejected"}}
+	}
+	if c.Proto != 0 {
+		cat.SetProtocolID(q, c.Proto)
 	}
 	frame := q.Bytes()
 	if len(frame) < 8 {
@@ -119,7 +125,11 @@ var chkPrefix = harness.Define("classifier-prefixes",
 		if fc == 16 && rapid.IntRange(0, 9).Draw(t, "lim") == 0 {
 			r.Payload = gen.Payload(t, "p", 248)
 		}
-		return prefixCase{Req: r}
+		c := prefixCase{Req: r}
+		if rapid.IntRange(0, 3).Draw(t, "with_proto") == 0 {
+			c.Proto = rapid.SampledFrom([]uint16{1, 0x0100, 0xFFFF, 0x4D42}).Draw(t, "proto")
+		}
+		return c
 	}, runPrefix)
 
 // ---------------------------------------------------------------------------
